@@ -13,15 +13,16 @@ def run(ctx):
     else:
         for n in ("chain2", "rmw2"):
             se.mc(ctx, [n], "mc_" + n, tlc_workers=12, timeout=3000)
-        se.mc(ctx, ["tiny2"], "mc_tiny2_w3", workers=3, tlc_workers=12, timeout=3000)
+        # three workers: exhaustive search of even a 2-transaction block does not finish in 40 minutes here (measured); behaviours sampled
+        se.mc(ctx, ["tiny2", "chain2", "rmw3", "dd3"], "sim_w3", workers=3, simulate=10000, depth=900, timeout=2400)
         se.mc(ctx, ["rmw3", "dd3", "grow_shrink3", "invalid_then_valid3"], "sim3", simulate=20000, depth=900, timeout=2400)
     for g, b in (("GRewindNew", "chain2"), ("GValStorage", "chain2"), ("GStrictBefore", "rmw2")):
         w = se.witness(ctx, g, b, regenerate=not quick)
         ctx.guards[g] = (f"load-bearing on {b}: {w['invariant']} at depth {w['depth']}" if w["found"] else f"no counterexample on {b}")
-        res = se.replay_witness(ctx, w, "C01", also=("C02",), extra_runs=4 if quick else 30)
+        res = se.replay_witness(ctx, w, "C01", also=("C02",), extra_runs=ctx.n(4, 30))
     names = ["chain2", "rmw2", "rmw3", "dd3", "grow_shrink3", "stale_fatal2"]
     for workers in (1, 2, 3):
-        r, out, args = se.controlled(ctx, names, 50 if quick else 3000, workers=workers, tag=f"w{workers}")
+        r, out, args = se.controlled(ctx, names, ctx.n(50, 3000), workers=workers, tag=f"w{workers}")
         se.report(ctx, r, args, "C01", also=("C03",))
         se.validate(ctx, r, out, f"trace_w{workers}", workers=max(workers, 1))
     # forced sequential and threshold paths give the same observable
